@@ -434,7 +434,11 @@ def expmint(A, h, geti2=False):
     eta_4 = max(H.d8_loose, H.d10_loose)
     eta_5 = min(eta_3, eta_4)
     theta_13 = 4.25
-    s = max(int(np.ceil(np.log2(eta_5 / theta_13))), 0)
+    if eta_5 == 0:
+        # Nilpotent special case
+        s = 0
+    else:
+        s = max(int(np.ceil(np.log2(eta_5 / theta_13))), 0)
     s = s + mf._ell(2**-s * H.A, 13)
     U, V, P, Q = H.pade13_scaled_i(s, h)
     E = mf._solve_P_Q(U, V, structure=structure)
@@ -1141,7 +1145,11 @@ def _expm_SS(A, ssA, order):  # , use_exact_onenorm='auto'):
     eta_4 = max(h.d8_loose, h.d10_loose)
     eta_5 = min(eta_3, eta_4)
     theta_13 = 4.25
-    s = max(int(np.ceil(np.log2(eta_5 / theta_13))), 0)
+    if eta_5 == 0:
+        # Nilpotent special case
+        s = 0
+    else:
+        s = max(int(np.ceil(np.log2(eta_5 / theta_13))), 0)
     s = s + mf._ell(2**-s * h.A, 13)
     U, V = h.pade13_scaled(s)
     X = mf._solve_P_Q(U, V, structure=structure)
